@@ -72,6 +72,16 @@ func c15apiMix(rep *vh.Report, seed uint64, idx int) {
 				_ = node.FixFrame(e.Frame)
 			}
 		}
+		if n%4 == 1 {
+			// a router that forwards the received frame with one addressed write per destination: the same frame object
+			// goes into several calls, one after the other
+			for _, oc := range cons.openChannels() {
+				if oc.Ch != e.Ch {
+					_ = node.WriteFrameTo(oc.Ch, e.Frame)
+				}
+			}
+			return
+		}
 		_ = node.WriteFrameExcept(e.Ch, e.Frame)
 	}
 	cons.start()
@@ -178,6 +188,9 @@ func c15apiMix(rep *vh.Report, seed uint64, idx int) {
 				case 6:
 					_ = node.FixFrame(fr)
 					_ = node.WriteFrameAll(fr)
+					if i%2 == 0 {
+						_ = node.WriteFrameTo(ch, fr) // the same frame object again, by the same goroutine
+					}
 				}
 				if i%16 == 0 {
 					time.Sleep(50 * time.Microsecond)
